@@ -195,14 +195,29 @@ func rulesC03(cx *Ctx) []Obligation {
 	}
 	pubPath, _ := eq.Args[0].Definite()
 	m := ivRe.FindStringSubmatch(pubPath)
+	if m == nil {
+		m = regexp.MustCompile(`\[e:/\(iv(\d+),\d+\)\]$`).FindStringSubmatch(pubPath) // value[s/T] of the stride form
+	}
 	jOK := false
 	var jID int
+	strideT := int64(0)
 	if m != nil && eq.Must {
 		jID = atoi(m[1])
 		ld := r.In.Loops[jID]
 		if ld != nil && hasInt(eq.Loops, jID) && ld.S.Counted && ld.S.SingleExit && ld.S.Step == 1 && ld.S.StartConst != nil && *ld.S.StartConst == 0 && ld.S.Op == token.LSS {
 			if b := constOf(ld.Bound); b != nil && b.Int64() == pubLen {
 				jOK = true
+			}
+		}
+		// stride form: for s := 0; s < len(inner public inputs); s += T { … value[s/T] … } — 16/T values (the length is
+		// pinned to 16 by the refusal of O3.1)
+		if ld != nil && !jOK && hasInt(eq.Loops, jID) && ld.S.Counted && ld.S.SingleExit && ld.S.Step > 1 && ld.S.StartConst != nil && *ld.S.StartConst == 0 && ld.S.Op == token.LSS &&
+			ld.Bound != nil && len(ld.Bound.LenOf) == 1 && strings.HasSuffix(ld.Bound.LenOf[0], ".PublicInputs") {
+			T := ld.S.Step
+			want := fmt.Sprintf("R.%s[e:/(iv%d,%d)]", pubField, jID, T)
+			if pubPath == want && 16%T == 0 && 16/T == pubLen {
+				jOK = true
+				strideT = T
 			}
 		}
 	}
@@ -333,6 +348,15 @@ func rulesC03(cx *Ctx) []Obligation {
 	}
 	loOK := sm[2] == fmt.Sprintf("*(%s,%d)", jv, T) || sm[2] == fmt.Sprintf("*(%d,%s)", T, jv)
 	hiOK := sm[3] == fmt.Sprintf("*(+(%s,1),%d)", jv, T) || sm[3] == fmt.Sprintf("+(*(%s,%d),%d)", jv, T, T) || sm[3] == fmt.Sprintf("*(%d,+(%s,1))", T, jv)
+	if strideT > 0 {
+		// stride form: the window of the value starting at s is [s, s+T), s advancing by T
+		T = strideT
+		loOK = sm[2] == jv
+		hiOK = sm[3] == fmt.Sprintf("+(%s,%d)", jv, T)
+		if ild != nil && !(ild.Bound != nil && len(ild.Bound.LenOf) == 1 && ild.Bound.LenOf[0] == sm[1]+"[s:"+sm[2]+":"+sm[3]+"]") && !(constOf(ild.Bound) != nil && constOf(ild.Bound).Int64() == T) {
+			loOK = false // the inner loop does not run over exactly the window
+		}
+	}
 	if T == 0 || !loOK || !hiOK || T*pubLen != 16 {
 		return append(obs, bad(key32, d32, fmt.Sprintf("the limbs of value j are not public inputs [j·T, (j+1)·T) with T·%d = 16 (slice [%s:%s], inner trip count %d)", pubLen, sm[2], sm[3], T), r.site(eq)))
 	}
